@@ -47,9 +47,16 @@ pub const KEYS: &[&[&str]] = &[
     &["https://a.example:80"],
     &["ws://a.example:8080"],
     &["wss://a.example:8080", "wss://A.Example:8080"],
+    // user information in the authority, same host, different ports
+    &["http://user:pw@c.example:8001"],
+    &["http://user:pw@c.example:8002"],
+    // IPv6 literals: same address, different ports; a different address
+    &["http://[::1]:8001"],
+    &["http://[::1]:8002"],
+    &["http://[2001:db8::7]:8001"],
 ];
 /// groups of keys that a sloppy pool key could confuse
-const CONFUSABLE: &[&[u64]] = &[&[0, 4], &[1, 5], &[2, 6], &[2, 7], &[6, 7], &[0, 1], &[0, 2], &[0, 3]];
+const CONFUSABLE: &[&[u64]] = &[&[0, 4], &[1, 5], &[2, 6], &[2, 7], &[6, 7], &[0, 1], &[0, 2], &[0, 3], &[8, 9], &[10, 11], &[10, 12], &[8, 9, 11]];
 
 fn key_of_uri(uri: &http::Uri) -> usize {
     if let Some(k) = uri.host().and_then(|h| h.strip_prefix('n')).and_then(|h| h.strip_suffix(".example")).and_then(|k| k.parse::<usize>().ok()) { return k; }
